@@ -228,8 +228,8 @@ impl MediaWorld {
                 let enc_tok = match sec { Some(s) => self.tok(&s), None => 9999 };
                 let plain_ok = Sha256::digest(&data)[..] == up.original_hash[..];
                 let out = format!(
-                    "ok enc={} epoch={} mime={} esize={} osize={} dims={} rawhash={}",
-                    enc_tok, ep, hex::encode(up.mime_type.as_bytes()), up.encrypted_size, up.original_size,
+                    "ok enc={} epoch={} hash={} mime={} esize={} osize={} dims={} rawhash={}",
+                    enc_tok, ep, hex::encode(&up.original_hash[..6]), hex::encode(up.mime_type.as_bytes()), up.encrypted_size, up.original_size,
                     up.dimensions.map(|(w, h)| format!("{w}x{h}")).unwrap_or("-".into()), plain_ok as u8
                 );
                 self.files.insert(f, FileRec { data, upload: up, tag, enc_tok });
